@@ -2,6 +2,7 @@
 
 from __future__ import annotations
 
+import re
 from typing import Dict, Iterable, List, Optional, Set, Tuple, Union
 
 from .ast import (
@@ -832,6 +833,15 @@ SETUP_START = "void setup() {\n"
 SETUP_END = "}\n\n"
 LOOP_START = "void loop() {\n"
 LOOP_END = "}\n"
+
+def _not_negative(expr_text: str) -> str:
+    """A duration that is about to become an ``unsigned long``: a negative one is no
+    wait at all (the cast would turn it into weeks)."""
+
+    if re.fullmatch(r"\d+(?:\.\d+)?", expr_text.strip()):
+        return expr_text
+    return f"(({expr_text}) < 0 ? 0 : ({expr_text}))"
+
 
 def _emit_expr(v: Union[int, float, str]) -> str:
     """Render an integer literal or a pre-formatted expression string."""
@@ -2456,7 +2466,7 @@ def _emit_block(
             if getattr(node, "duration_ms", None) is not None:
                 duration_expr = _emit_expr(node.duration_ms) if node.duration_ms is not None else "0"
                 lines.append(
-                    f"{indent}  unsigned long __redu_duration = static_cast<unsigned long>({duration_expr});"
+                    f"{indent}  unsigned long __redu_duration = static_cast<unsigned long>({_not_negative(duration_expr)});"
                 )
                 lines.append(f"{indent}  if (__redu_duration > 0UL) {{")
                 lines.append(f"{indent}    delay(__redu_duration);")
@@ -2486,10 +2496,10 @@ def _emit_block(
                 lines.append(f"{indent}  float __redu_freq_target = {last_var};")
             lines.append(f"{indent}  if (__redu_freq_target < 0.0f) {{ __redu_freq_target = 0.0f; }}")
             lines.append(
-                f"{indent}  unsigned long __redu_on_ms = static_cast<unsigned long>({_emit_expr(node.on_ms)});"
+                f"{indent}  unsigned long __redu_on_ms = static_cast<unsigned long>({_not_negative(_emit_expr(node.on_ms))});"
             )
             lines.append(
-                f"{indent}  unsigned long __redu_off_ms = static_cast<unsigned long>({_emit_expr(node.off_ms)});"
+                f"{indent}  unsigned long __redu_off_ms = static_cast<unsigned long>({_not_negative(_emit_expr(node.off_ms))});"
             )
             lines.append(f"{indent}  int __redu_times = static_cast<int>({_emit_expr(node.times)});")
             lines.append(f"{indent}  if (__redu_times < 0) {{ __redu_times = 0; }}")
@@ -2527,7 +2537,7 @@ def _emit_block(
             lines.append(f"{indent}  if (__redu_start < 0.0f) {{ __redu_start = 0.0f; }}")
             lines.append(f"{indent}  float __redu_end = static_cast<float>({end_expr});")
             lines.append(f"{indent}  if (__redu_end < 0.0f) {{ __redu_end = 0.0f; }}")
-            lines.append(f"{indent}  unsigned long __redu_total = static_cast<unsigned long>({duration_expr});")
+            lines.append(f"{indent}  unsigned long __redu_total = static_cast<unsigned long>({_not_negative(duration_expr)});")
             lines.append(f"{indent}  int __redu_steps = static_cast<int>({steps_expr});")
             lines.append(f"{indent}  if (__redu_steps < 1) {{ __redu_steps = 1; }}")
             lines.append(
